@@ -289,3 +289,153 @@ def read_err_latch(ctx):
             ctx.ok(key, f.loc(0), 'errors are recorded in `%s`, which is tested before the decoder runs' % '/'.join(sorted(guard_fields)))
     if n == 0:
         ctx.anchor_missing('readers owning LZ decoder state')
+
+
+# --------------------------------------------------------------------------- BOUNDS
+
+def _state_invariant(F, iv, adt_path, fld, bound):
+    """Inductive invariant `0 <= adt.fld <= bound`: every store to the field in a method of the type stays within
+    the bound when the field is within it before, and every construction of the type starts within it.
+    Returns (ok, detail)."""
+    from rules.units import self_field_stores
+    notes = []
+    for g in F.fns:
+        if g.kind == 'closure':
+            continue
+        pg = None
+        # constructions
+        for bi, b in enumerate(g.blocks):
+            if b['cleanup']:
+                continue
+            for si, st in enumerate(b['stmts']):
+                if st['k'] == 'assign' and st['rv']['r'] == 'agg' and st['rv'].get('adt') == adt_path:
+                    pg = pg or Prov(g)
+                    names = st['rv'].get('fields') or []
+                    if fld in names:
+                        e = pg.operand(st['rv']['ops'][names.index(fld)], 0, '%d:%d' % (bi, si))
+                        r = iv.eval(g, bi, e)
+                        if not (r.lo >= 0 and r.hi <= bound):
+                            if not iv.callers(g) and not (F.adts.get(adt_path) or {}).get('pub'):
+                                notes.append('%s is never called' % g.key)
+                                continue
+                            return False, '%s constructs the value with %s in %r' % (g.key, expr_str(e)[:40], r)
+        if g.self_adt != adt_path:
+            continue
+        for bi, si, name, rv in self_field_stores(g):
+            if name != fld:
+                continue
+            pg = pg or Prov(g)
+            e = pg.rvalue(rv, 0, '%d:%d' % (bi, si))
+            # assume the invariant for reads of the same field (of self or of another value of the same type)
+            r = _eval_assuming(iv, g, bi, e, adt_path, fld, bound)
+            if not (r.lo >= 0 and r.hi <= bound):
+                return False, '%s stores %s in %r' % (g.key, expr_str(e)[:50], r)
+    return True, 'inductive invariant 0..=%d holds for every store and construction%s' % (bound, (' (' + '; '.join(notes) + ')') if notes else '')
+
+
+def _eval_assuming(iv, g, bi, e, adt_path, fld, bound):
+    """interval of e at block bi of g where every read of `<adt>.fld` is assumed in [0, bound] (refined by guards)."""
+    from lzlint.intervals import Ival
+    gb = iv.guard_bounds_cached(g, bi)
+
+    def ev(x):
+        k = x[0]
+        if k == 'field' and x[2] == fld and (len(x) < 4 or x[3] is None or x[3] == last_seg(adt_path)):
+            lo, hi = 0, bound
+            from lzlint.intervals import strip
+            ent = gb.get(strip(x, g))
+            if ent:
+                l, h, _ = ent
+                if h is not None and h[0][0] == 'const':
+                    hi = min(hi, h[0][2] - (1 if h[1] else 0))
+                if l is not None and l[0][0] == 'const':
+                    lo = max(lo, l[0][2] + (1 if l[1] else 0))
+            return Ival(lo, hi)
+        if k == 'cast':
+            return ev(x[2])
+        if k == 'field' and x[2] == '0' and x[1][0] == 'bin':
+            return ev(x[1])
+        if k == 'bin':
+            op = x[1].replace('WithOverflow', '')
+            a, b = ev(x[2]), ev(x[3])
+            if op == 'Sub':
+                return Ival(a.lo - b.hi, a.hi - b.lo)
+            if op == 'Add':
+                return Ival(a.lo + b.lo, a.hi + b.hi)
+        return iv.eval(g, bi, x)
+    return ev(e)
+
+
+@rule('BOUNDS', ['C06'], floor=112, thorough_configs=('nostd-xzlzip',))
+def bounds(ctx):
+    """Indexing into a table of fixed size cannot panic in decoder-reachable code: for every bounds-check
+    assert whose length operand is a constant, the index is proven below that length by interval analysis
+    (guard refinement, caller lifting, field writers, loop-exit conditions on loop-carried values, integer
+    range iterators) or, for an index read from a single-field state type, by an inductive invariant over all
+    stores to that field. Slices and vectors (run-time lengths) are not decided here."""
+    from lzlint.intervals import Ival
+    F = ctx.facts
+    roots, present = decoder_entry_points(F)
+    if not roots:
+        return ctx.anchor_missing('public reader types')
+    reach = F.reachable_fns(roots)
+    iv = Intervals(F, scope=set(reach))
+    inv_cache = {}
+    n = 0
+    cnt = {}
+    for p in sorted(reach):
+        f = F.by_path[p]
+        prov = None
+        for bi, b in enumerate(f.blocks):
+            t = b['term']
+            if b['cleanup'] or t['k'] != 'assert' or not t['msg'].startswith('BoundsCheck'):
+                continue
+            ops = t['msg_ops']
+            k = (ops[0].get('k') if ops else None)
+            if k is None or not isinstance(k.get('v'), int):
+                continue
+            ln = k['v']
+            prov = prov or Prov(f)
+            idx = prov.operand(ops[1], 0, '%d:T' % bi)
+            n += 1
+            base = '%s:index<%d' % (f.key if f.kind != 'closure' else f.npath, ln)
+            cnt[base] = cnt.get(base, 0) + 1
+            key = base if cnt[base] == 1 else '%s#%d' % (base, cnt[base])
+            try:
+                r, where = eval_lifted(iv, f, bi, idx, ln - 1)
+            except RecursionError:
+                r, where = Ival(-INF, INF), f.key
+            if r.hi != INF and r.hi <= ln - 1 and r.lo >= 0:
+                ctx.ok(key, f.loc(bi), 'index %s in %r' % (expr_str(idx)[:50], r), nontrivial=idx[0] != 'const')
+                continue
+            # index read through an accessor of a single-field state type: inductive invariant
+            x = idx
+            while x[0] == 'cast':
+                x = x[2]
+            done = False
+            if x[0] == 'call' and len(x) > 3 and x[3]:
+                c = callee_of(x[3])
+                g = F.by_path.get(c['path']) if c and c.get('local') else None
+                if g is not None and g.self_adt and not g.loops():
+                    pg = Prov(g)
+                    rets = [ex for _, ex in pg.def_exprs(0)]
+                    if len(rets) == 1 and rets[0][0] == 'field':
+                        from lzlint.core import self_field_of
+                        sf = self_field_of(rets[0])
+                        if sf and len(sf) == 1:
+                            ck = (g.self_adt, sf[0], ln - 1)
+                            if ck not in inv_cache:
+                                inv_cache[ck] = _state_invariant(F, iv, g.self_adt, sf[0], ln - 1)
+                            okk, detail = inv_cache[ck]
+                            if okk:
+                                ctx.ok(key, f.loc(bi), 'index %s: %s.%s, %s' % (expr_str(idx)[:40], last_seg(g.self_adt), sf[0], detail))
+                            else:
+                                ctx.violation(key, f.loc(bi), 'index %s into a table of %d entries: the invariant %s.%s <= %d does not hold: %s' % (
+                                    expr_str(idx)[:40], ln, last_seg(g.self_adt), sf[0], ln - 1, detail))
+                            done = True
+            if done:
+                continue
+            ctx.violation(key, f.loc(bi), 'index %s into a table of %d entries is not provably in range (interval %r, context %s): a hostile '
+                          'stream can make the decoder panic with an out-of-bounds index' % (expr_str(idx)[:60], ln, r, where))
+    if n == 0:
+        ctx.anchor_missing('constant-length bounds checks in decoder-reachable code')
